@@ -13,6 +13,7 @@ from usim import time, Scope, Pipe, UnboundedPipe, instant
 from ..engine import EQ, GE, LE, LT, GT, AND, OR, NOT, IMPLIES, MAX, MIN, INF
 from ..explore import Family
 from ..kit import Log, simulate, now, classify_run_exception, Fault
+from ..probe import Probe
 
 BOUNDS = ('exact rational arithmetic (no IEEE rounding: the statement allows rounding, the claim '
           'is for exact inputs); volumes in [0,60], start offsets in [0,30], fault instant in '
